@@ -100,8 +100,14 @@ def model_targets():
 
 
 def forbidden_scan():
+    """every .v file of the development (= listed in _CoqProject, plus the extraction files) is scanned; a file that is not
+    listed is not part of the development: nothing listed can depend on it, because only listed files are ever compiled by make"""
     bad = []
+    listed = set(open(os.path.join(COQ, "_CoqProject")).read().split())
     for p in sorted(glob.glob(os.path.join(COQ, "*.v"))):
+        b = os.path.basename(p)
+        if b not in listed and not b.startswith("Extract"):
+            continue
         txt = open(p, errors="replace").read()
         txt_nc = re.sub(r"\(\*.*?\*\)", "", txt, flags=re.S)
         for m in FORBIDDEN.finditer(txt_nc):
